@@ -35,8 +35,8 @@ func vOfLeaf[T any](name string, inferable bool, mk func() ColumnOf[T], gen func
 	})
 }
 
-func vGenStr() string   { return verifStr("s", verifIntRange("slen", 0, verifParam("maxstr", 2))) }
-func vGenBytes() []byte { return verifBytes("s", verifIntRange("slen", 0, verifParam("maxstr", 2))) }
+func vGenStr() string   { return verifStr("s", verifIntRange("slen", verifParam("minstr", 0), verifParam("maxstr", 2))) }
+func vGenBytes() []byte { return verifBytes("s", verifIntRange("slen", verifParam("minstr", 0), verifParam("maxstr", 2))) }
 func vGenU64() uint64   { return verifU64("v") }
 func vGenU8() uint8     { return verifU8("v") }
 func vGenUUID() (u uuid.UUID) {
@@ -50,7 +50,7 @@ func vEqF64(a, b float64) bool      { return math.Float64bits(a) == math.Float64
 
 func vGenSlice[T any](gen func() T) func() []T {
 	return func() []T {
-		n := verifIntRange("inner", 0, verifParam("maxinner", 2))
+		n := verifIntRange("inner", verifParam("mininner", 0), verifParam("maxinner", 2))
 		var r []T
 		for i := 0; i < n; i++ {
 			r = append(r, gen())
@@ -143,7 +143,7 @@ func vLeafDateTimeRaw() {
 }
 
 func vLeafDateTime64Raw() {
-	p := Precision(verifIntRange("precision", 0, 9))
+	p := Precision(verifIntRange("precision", verifParam("minprec", 0), verifParam("maxprec", 9)))
 	vBlockRoundTrip(vLeafSpec[DateTime64]{
 		name: "DateTime64",
 		mk:   func() Column { return new(ColDateTime64).WithPrecision(p) },
@@ -156,7 +156,7 @@ func vLeafDateTime64Raw() {
 }
 
 func vLeafInterval() {
-	scale := IntervalScale(verifIntRange("scale", int(IntervalSecond), int(IntervalYear)))
+	scale := IntervalScale(verifIntRange("scale", verifParam("minscale", int(IntervalSecond)), verifParam("maxscale", int(IntervalYear))))
 	vBlockRoundTrip(vLeafSpec[Interval]{
 		name: "Interval",
 		mk:   func() Column { return &ColInterval{Scale: scale} },
@@ -170,7 +170,10 @@ func vLeafInterval() {
 
 // VerifC01PlainLeaves: the hand-written leaf columns.
 func VerifC01PlainLeaves() {
-	k := verifChoice("type", len(vPlainLeaves)+3)
+	k := verifParam("type", -1)
+	if k < 0 {
+		k = verifChoice("type", len(vPlainLeaves)+3)
+	}
 	switch {
 	case k < len(vPlainLeaves):
 		vPlainLeaves[k].run()
@@ -231,7 +234,7 @@ var vComposites = []vEntry{
 func vMapRoundTrip() {
 	type kv = KV[string, uint64]
 	gen := func() []kv {
-		n := verifIntRange("inner", 0, verifParam("maxinner", 2))
+		n := verifIntRange("inner", verifParam("mininner", 0), verifParam("maxinner", 2))
 		var r []kv
 		for i := 0; i < n; i++ {
 			r = append(r, kv{Key: vGenStr(), Value: vGenU64()})
